@@ -1,4 +1,6 @@
 """C08 -- decoding the labels an encoder produced reconstructs the sequence."""
+import math
+
 from props import common as K
 
 META = {
@@ -13,7 +15,13 @@ META = {
         'is the one the documented precedence selects, that labels and one-hot '
         'blocks are in range, and - as one inductive step from an arbitrary '
         'valid history - that any in-range label decodes to an event the '
-        'sequence accepts.',
+        'sequence accepts.  The CONTENT of the input vectors (lookback, '
+        'key-melody, modulo, note-performance, pianoroll, and the control '
+        'encoders of the conditional wrapper: multiple / optional / pitch-chord '
+        '/ triad / note-density / pitch-histogram) is compared entry by entry '
+        'with oracles written from the docstrings, also through encode, '
+        'get_inputs_batch and extend_event_sequences, and with the constructor '
+        'arguments omitted (defaults).',
     'level_note':
         'Trusted: z3 (integers), np-lite for the two encoders that build their '
         'input with numpy and for the key histograms (bincount over symbolic '
@@ -21,9 +29,17 @@ META = {
         'events_to_input, whose vectors are checked for size, value range, '
         'the pitch/silence block and the key flags on 2-event melodies (the '
         'max over twelve symbolic counts makes longer melodies expensive: 3 '
-        'events are a non-required thorough job).',
+        'events are a non-required thorough job).  h_keymelody_vec '
+        'enumerates the events over a six-symbol alphabet through the solver '
+        '(concrete key histograms) and compares the whole vector; entries the '
+        'docstring leaves open (attack flag on a note-off, direction after a '
+        'repeated pitch, "last three notes" with duplicates) are not asserted.',
     'functions': [
         ('encoder_decoder', 'EventSequenceEncoderDecoder.encode'),
+        ('encoder_decoder', 'EventSequenceEncoderDecoder.labels_to_num_steps'),
+        ('encoder_decoder', 'EventSequenceEncoderDecoder.get_inputs_batch'),
+        ('encoder_decoder',
+         'EventSequenceEncoderDecoder.extend_event_sequences'),
         ('encoder_decoder', 'OneHotEventSequenceEncoderDecoder.events_to_input'),
         ('encoder_decoder', 'OneHotEventSequenceEncoderDecoder.events_to_label'),
         ('encoder_decoder',
@@ -43,6 +59,28 @@ META = {
         ('encoder_decoder',
          'ConditionalEventSequenceEncoderDecoder.events_to_input'),
         ('encoder_decoder', 'ConditionalEventSequenceEncoderDecoder.encode'),
+        ('encoder_decoder',
+         'ConditionalEventSequenceEncoderDecoder.events_to_label'),
+        ('encoder_decoder',
+         'ConditionalEventSequenceEncoderDecoder.get_inputs_batch'),
+        ('encoder_decoder',
+         'ConditionalEventSequenceEncoderDecoder.extend_event_sequences'),
+        ('encoder_decoder', 'OptionalEventSequenceEncoder.events_to_input'),
+        ('encoder_decoder', 'MultipleEventSequenceEncoder.events_to_input'),
+        ('encoder_decoder', 'LookbackEventSequenceEncoderDecoder.__init__'),
+        ('melody_encoder_decoder', 'KeyMelodyEncoderDecoder.__init__'),
+        ('chords_encoder_decoder', 'PitchChordsEncoderDecoder.events_to_input'),
+        ('chords_encoder_decoder', 'TriadChordOneHotEncoding.encode_event'),
+        ('chords_encoder_decoder', 'TriadChordOneHotEncoding.decode_event'),
+        ('performance_controls',
+         'NoteDensityPerformanceControlSignal.NoteDensityOneHotEncoding.'
+         'encode_event'),
+        ('performance_controls',
+         'NoteDensityPerformanceControlSignal.NoteDensityOneHotEncoding.'
+         'decode_event'),
+        ('performance_controls',
+         'PitchHistogramPerformanceControlSignal.PitchHistogramEncoder.'
+         'events_to_input'),
         ('melody_encoder_decoder', 'KeyMelodyEncoderDecoder.events_to_label'),
         ('melody_encoder_decoder', 'KeyMelodyEncoderDecoder.events_to_input'),
         ('melodies_lib', 'Melody.get_major_key_histogram'),
@@ -50,6 +88,14 @@ META = {
          'KeyMelodyEncoderDecoder.class_index_to_event'),
         ('performance_encoder_decoder',
          'ModuloPerformanceEventSequenceEncoderDecoder.events_to_input'),
+        ('performance_encoder_decoder',
+         'ModuloPerformanceEventSequenceEncoderDecoder.__init__'),
+        ('performance_encoder_decoder', 'PerformanceModuloEncoding.__init__'),
+        ('performance_encoder_decoder', 'PerformanceOneHotEncoding.__init__'),
+        ('performance_encoder_decoder',
+         'NotePerformanceEventSequenceEncoderDecoder.__init__'),
+        ('performance_encoder_decoder',
+         'NotePerformanceEventSequenceEncoderDecoder.default_event_label'),
         ('performance_encoder_decoder',
          'NotePerformanceEventSequenceEncoderDecoder._encode_event'),
         ('performance_encoder_decoder',
@@ -61,6 +107,9 @@ META = {
         ('pianoroll_encoder_decoder', 'PianorollEncoderDecoder._event_to_label'),
         ('pianoroll_encoder_decoder',
          'PianorollEncoderDecoder.class_index_to_event'),
+        ('pianoroll_encoder_decoder', 'PianorollEncoderDecoder._event_to_input'),
+        ('pianoroll_encoder_decoder',
+         'PianorollEncoderDecoder.extend_event_sequences'),
     ],
     'assumptions': [
         'melody alphabet = the valid events of MelodyOneHotEncoding(48, 84); '
@@ -73,11 +122,27 @@ META = {
         'counts are computed concretely by the constructor',
         'generation runs start from a non-empty label list for the '
         'note-performance encoder',
+        'content oracles of the input vectors: melody events over {no-event, '
+        'note-off, 48} (lookback) or six symbols of the range (key-melody) at '
+        '2-4 symbolic positions of a fixed pattern; default lookbacks [16, 32] '
+        'at positions 15, 16, 33',
+        'key-melody pitch ranges [48, 84) and [1, 128), lookback lists '
+        'including the empty one; min_note = 0, note-performance pitch ranges '
+        'without pitch 60, prime shift/duration limits and the empty label '
+        'list of the note-performance encoder are observed but not claimed '
+        '(see the comments in jobs())',
+        'chords of the control encoders from a hand-written table (C, Am, G7, '
+        'D/F#, Bdim, Caug, F#m, N.C.); density bins [1, 5]',
     ],
     'bounds': {
         'quick': 'L<=4 events, every position, 0-2 symbolic lookback distances; '
                  'generation step from histories of length <=3; pianoroll width '
-                 '<=4',
+                 '<=4 (88 for label/decode/input of <=2 keys); input-vector '
+                 'content: L<=4 symbolic (34 with a fixed pattern), lookback '
+                 'distances <=4 or the defaults, counter widths 0-7; two-event '
+                 'sequences for modulo / note-performance / pianoroll; '
+                 'conditional pairs of 3 events; lookback over performance '
+                 'events: 3 labels',
         'thorough': 'L<=6 (8 over the 3-symbol alphabet with lookbacks from '
                     '{1,2,3}); histories <=4; pianoroll width 6',
     },
@@ -182,6 +247,134 @@ def h_lookback_input(c):
     c.check(c.eq(labs[i], enc.events_to_label(list(events), i + 1)),
             'label i belongs to position i+1')
 
+def _cls(c, e):
+  """Class of a melody event under MelodyOneHotEncoding(LO, HI), as documented:
+  0 = no event, 1 = note-off, 2.. = pitch relative to the range."""
+  return c.If(c.eq(e, -2), 0, c.If(c.eq(e, -1), 1, e - LO + 2))
+
+
+PATTERN = (60, -2, 62, -1, -2, 64, 60, -2, 83, 48, -1, 62, -2, -2, 49, 60, -1)
+
+
+def _events(c, L, prefix='e'):
+  """L melody events; the positions in params['sym'] (all when absent) are
+  symbolic, the others come from a fixed pattern.  params['alphabet'] == 3
+  restricts the symbolic ones to {no-event, note-off, LO}."""
+  sym = c.params.get('sym')
+  out = []
+  for i in range(L):
+    if sym is not None and i not in sym:
+      out.append(PATTERN[(i * 7 + 3) % len(PATTERN)])
+    elif c.params.get('alphabet') == 3:
+      e = c.int('%s%d' % (prefix, i), -2, LO)
+      c.assume(c.Or(c.eq(e, -2), c.eq(e, -1), c.eq(e, LO)))
+      out.append(e)
+    else:
+      out.append(_valid_event(c, '%s%d' % (prefix, i)))
+  return out
+
+
+def _check_lookback_vec(c, vec, events, p, dists, bits, what=''):
+  """The documented layout of LookbackEventSequenceEncoderDecoder.
+  events_to_input, entry by entry: current event | for every lookback the
+  event ONE STEP AFTER the lookback position (default event before the start)
+  | binary counters of position+1 (the next event) | repeat flags."""
+  n1 = HI - LO + 2
+  nl = len(dists)
+  vec = list(vec)
+  c.check(len(vec) == n1 * (1 + nl) + bits + nl,
+          what + 'input vector has input_size entries')
+  ds = [c.concretize(d) for d in dists]
+  blocks = [events[p]] + [events[p - d + 1] if p - d + 1 >= 0 else -2
+                          for d in ds]
+  for b, ev in enumerate(blocks):
+    k = c.concretize(_cls(c, ev))
+    c.check(_one_hot_block_ok(c, vec, b * n1, n1) and
+            vec[b * n1 + k] == 1.0,
+            what + ('current-event block is one-hot at events[p]' if b == 0 else
+                    'lookback block is one-hot at the event one step after the '
+                    'lookback position (default event before the start)'))
+  off = n1 * (1 + nl)
+  c.check(all(vec[off + i] == (1.0 if ((p + 1) // 2**i) % 2 else -1.0)
+              for i in range(bits)),
+          what + 'binary counters are the bits of position+1 as +-1')
+  off += bits
+  for i, d in enumerate(ds):
+    rep = p - d >= 0 and bool(c.eq(events[p], events[p - d]))
+    c.check(vec[off + i] == (1.0 if rep else 0.0),
+            what + 'repeat flag i is 1 iff events[p] == events[p - d_i]')
+
+
+def h_lookback_vec(c):
+  """Content of the lookback input vectors against an independent oracle, the
+  defaults of the constructor (lookback_distances=None -> [16, 32] = one and
+  two default bars, binary_counter_bits=5), encode's inputs and labels, and
+  get_inputs_batch (last event / full length)."""
+  ed = c.mod('encoder_decoder')
+  med = c.mod('melody_encoder_decoder')
+  L, p = c.params['L'], c.params['p']
+  events = _events(c, L)
+  spec = c.params.get('dists', 'default')
+  kw = {}
+  if spec == 'default':
+    dists = [16, 32]
+  elif isinstance(spec, int):
+    dists = _lookbacks(c, spec)
+    kw['lookback_distances'] = list(dists)
+  else:
+    dists = list(spec)
+    kw['lookback_distances'] = list(dists)
+  bits = c.params.get('bits')
+  if bits is None:
+    bits = 5
+  else:
+    kw['binary_counter_bits'] = bits
+  oh = med.MelodyOneHotEncoding(LO, HI)
+  enc = ed.LookbackEventSequenceEncoderDecoder(oh, **kw)
+  n1 = HI - LO + 2
+  nl = len(dists)
+  c.check(enc.num_classes == n1 + nl, 'num_classes')
+  c.check(enc.input_size == n1 * (1 + nl) + bits + nl, 'input_size formula')
+  c.check(enc.default_event_label == 0,
+          'default label = class of the default event (no-event)')
+  evl = list(events)
+  vec = enc.events_to_input(evl, p)
+  _check_lookback_vec(c, vec, events, p, dists, bits)
+  label = enc.events_to_label(evl, p)
+  exp = _expected_lookback_label(c, events, p, dists, n1, -2,
+                                 lambda e: _cls(c, e))
+  c.check(c.eq(label, exp), 'label follows the documented precedence')
+  c.check(c.eq(enc.class_index_to_event(label, evl[:p]), events[p]),
+          'decode(label(p), events[:p]) == events[p]')
+  if c.params.get('encode'):
+    ins, labs = enc.encode(evl)
+    c.check(len(ins) == L - 1 and len(labs) == L - 1,
+            'encode returns len-1 aligned pairs')
+    for i in range(L - 1):
+      _check_lookback_vec(c, ins[i], events, i, dists, bits, 'encode: ')
+      c.check(c.eq(labs[i], _expected_lookback_label(
+          c, events, i + 1, dists, n1, -2, lambda e: _cls(c, e))),
+              'encode: label i is the label of position i+1')
+    last = enc.get_inputs_batch([evl, evl[:L - 1]])
+    c.check(len(last) == 2 and len(last[0]) == 1 and len(last[1]) == 1,
+            'last-event batch has shape [sequences, 1, input_size]')
+    _check_lookback_vec(c, last[0][0], events, L - 1, dists, bits,
+                        'last-event batch: ')
+    _check_lookback_vec(c, last[1][0], events[:L - 1], L - 2, dists, bits,
+                        'last-event batch: ')
+    full = enc.get_inputs_batch([evl, evl], full_length=True)
+    c.check(len(full) == 2 and len(full[0]) == L and len(full[1]) == L,
+            'full-length batch has shape [sequences, len, input_size]')
+    for i in range(L):
+      _check_lookback_vec(c, full[1][i], events, i, dists, bits,
+                          'full-length batch: ')
+  c.check(len(evl) == L and bool(c.And([c.eq(a, b)
+                                       for a, b in zip(evl, events)])),
+          'the event list is left unmodified')
+  if spec != 'default' and nl:
+    c.cover('lookback reaches before the start',
+            c.Or([d > p + 1 for d in dists]))
+
 
 def h_onehot(c):
   ed = c.mod('encoder_decoder')
@@ -209,6 +402,18 @@ def h_onehot(c):
     c.check(len(ins) == L - 1 and len(labs) == L - 1,
             'encode returns len-1 aligned pairs')
     c.check(enc.labels_to_num_steps([0] * L) == L, 'one step per label')
+    for i in range(L - 1):
+      c.check(c.eq(labs[i], _cls(c, events[i + 1])),
+              'encode: label i is the class of event i+1')
+      if index_only:
+        c.check(len(ins[i]) == 1 and bool(c.eq(ins[i][0], _cls(c, events[i]))),
+                'encode: input i is the class of event i')
+      else:
+        c.check(_one_hot_block_ok(c, ins[i], 0, n1) and len(ins[i]) == n1 and
+                ins[i][c.concretize(_cls(c, events[i]))] == 1.0,
+                'encode: input i is one-hot at the class of event i')
+    c.check(enc.default_event_label == 0,
+            'default label = class of the default event (no-event)')
 
 
 def h_generation_step(c):
@@ -231,9 +436,31 @@ def h_generation_step(c):
   n = enc.num_classes
   label = c.int('label', 0, 200)
   c.assume(label < n)
-  ev = enc.class_index_to_event(label, list(hist))
+  hl = list(hist)
+  ev = enc.class_index_to_event(label, hl)
   c.check(c.And(ev >= -2, ev < HI, c.Or(ev < 0, ev >= LO)),
           'decoded event is a valid melody event (invariant preserved)')
+  # what the label denotes, written from the class tables of the docstrings:
+  # a plain class, or "repeat the event d_i steps back" (the default event
+  # while the history is shorter than d_i)
+  r = HI - LO
+  if which == 'keymelody':
+    dl = list(dists) or [1]
+    want = c.If(c.eq(label, r), -2, c.If(c.eq(label, r + 1), -1, LO + label))
+  else:
+    dl = list(dists) if which == 'lookback' else []
+    want = c.If(c.eq(label, 0), -2, c.If(c.eq(label, 1), -1, LO + label - 2))
+  for i, d in enumerate(dl):
+    back = -2
+    for k in range(1, H + 1):
+      back = c.If(c.eq(d, k), hist[-k], back)
+    want = c.If(c.eq(label, r + 2 + i), back, want)
+  c.check(c.eq(ev, want),
+          'the label decodes to its plain class, or to the event d_i steps '
+          'back (default event before the start)')
+  c.check(len(hl) == H and bool(c.And([c.eq(a, b) for a, b in zip(hl, hist)]
+                                      or [True])),
+          'decoding leaves the history unmodified')
   m = ml.Melody(list(hist)) if H else ml.Melody()
   before = len(m)
   m.append(ev)
@@ -291,6 +518,44 @@ def h_extend(c):
             c.Not(c.eq(labels[0][0], labels[0][-1])))
 
 
+def h_extend_multi(c):
+  """extend_event_sequences with a LIST of sub-softmaxes (the note-performance
+  encoder has six label components): component k of the chosen class of
+  sequence b is sampled from the last time step of sub-softmax k, row b."""
+  ped = c.mod('performance_encoder_decoder')
+  PE = c.mod('performance_lib').PerformanceEvent
+  T, B = c.params['T'], 2
+  enc = ped.NotePerformanceEventSequenceEncoderDecoder(3, 5, 6, 60, 63)
+  ncls = enc.num_classes
+  first = (PE(PE.TIME_SHIFT, 1), PE(PE.NOTE_ON, 60), PE(PE.VELOCITY, 1),
+           PE(PE.DURATION, 2))
+  seqs = [[first], [first, first]]
+  labels = [[[c.int('b%d_t%d_k%d' % (b, t, k), 0, ncls[k] - 1)
+              for k in range(6)] for t in range(T)] for b in range(B)]
+  softmax = [[[[c.If(c.eq(labels[b][t][k], j), 1.0, 0.0)
+                for j in range(ncls[k])] for t in range(T)] for b in range(B)]
+             for k in range(6)]
+  before = [list(q) for q in seqs]
+  chosen = enc.extend_event_sequences(seqs, softmax)
+  c.check(len(chosen) == B, 'one chosen class per sequence')
+  for b in range(B):
+    c.check(len(chosen[b]) == 6 and bool(c.And(
+        [c.eq(chosen[b][k], labels[b][-1][k]) for k in range(6)])),
+            'component k is sampled from the last time step of sub-softmax k '
+            'for this sequence')
+    want = enc.class_index_to_event(tuple(labels[b][-1]), None)
+    c.check(len(seqs[b]) == len(before[b]) + 1 and
+            seqs[b][:-1] == before[b],
+            'the history is kept and grows by exactly one event')
+    c.check(c.And([_pe_eq(c, x, y) for x, y in zip(seqs[b][-1], want)]),
+            'the appended event is class_index_to_event(label, history)')
+  c.cover('the two sequences get different classes',
+          c.Not(c.eq(labels[0][-1][2], labels[1][-1][2])))
+  if T >= 2:
+    c.cover('first and last time step disagree',
+            c.Not(c.eq(labels[0][0][2], labels[0][-1][2])))
+
+
 def h_keymelody(c):
   med = c.mod('melody_encoder_decoder')
   L, p, nl = c.params['L'], c.params['p'], c.params['nl']
@@ -337,6 +602,150 @@ def h_keymelody_input(c):
   c.check(bool(c.Or([c.eq(v, 1) for v in vec[-12:]])) and
           bool(c.Or([c.eq(v, 1) for v in vec[-24:-12]])),
           'at least one key flagged in each key block')
+
+
+_MAJOR = (0, 2, 4, 5, 7, 9, 11)
+
+
+def _key_flags(notes):
+  """1.0 for every major key that contains the largest number of `notes`."""
+  counts = [sum(1 for n in notes if (n - k) % 12 in _MAJOR) for k in range(12)]
+  return [1.0 if x == max(counts) else 0.0 for x in counts]
+
+
+def _keymelody_vec(events, p, lo, hi, dists, bits):
+  """The documented KeyMelody input vector for CONCRETE events; None where the
+  docstring leaves the entry open (see the comments)."""
+  r = hi - lo
+  sub = list(events[:p + 1])
+  cur = None
+  for e in sub:
+    if e == -1:
+      cur = None
+    elif e >= 0:
+      cur = e
+  notes = [e for e in sub if e >= 0]
+  v = [0.0] * r
+  if cur is not None:
+    v[cur - lo] = 1.0
+  v += [1.0 if cur is not None else 0.0, 1.0 if cur is None else 0.0]
+  # attack: "the current event is the note-on event of the currently playing
+  # note".  not claimed (left open here): on a NOTE-OFF event directly
+  # after a note-on the library still reports 1.0, e.g. events [60, -1], p=1.
+  v.append(1.0 if sub[-1] >= 0 else (0.0 if sub[-1] == -2 else None))
+  # ascending / descending: decided by the last two note-ons when they differ,
+  # 0 while there are fewer than two notes; open when the last two are equal
+  if len(notes) < 2:
+    v.append(0.0)
+  elif notes[-1] != notes[-2]:
+    v.append(1.0 if notes[-1] > notes[-2] else -1.0)
+  else:
+    v.append(None)
+  for d in dists:
+    v.append(1.0 if p - d >= 0 and events[p] == events[p - d] else 0.0)
+  for i in range(bits):
+    v.append(1.0 if ((p + 1) // 2**i) % 2 else -1.0)
+  v.append(1.0 if (p + 1) % 16 == 0 else 0.0)
+  v += _key_flags(notes)
+  # "the keys the last 3 notes are in": asserted when the last three note-ons
+  # and the last three DISTINCT notes give the same flags
+  distinct = []
+  for n in notes:
+    if n in distinct:
+      distinct.remove(n)
+    distinct.append(n)
+  a, b = _key_flags(notes[-3:]), _key_flags(distinct[-3:])
+  v += a if a == b else [None] * 12
+  return v
+
+
+def h_keymelody_vec(c):
+  """Content of the KeyMelody input vectors (events enumerated through the
+  solver over a small alphabet, so that the key histograms are concrete), the
+  constructor defaults (lookbacks [16, 32], 7 counter bits), Melody objects as
+  input, and the inherited encode."""
+  med = c.mod('melody_encoder_decoder')
+  ml = c.mod('melodies_lib')
+  lo, hi = c.params.get('range', (LO, HI))
+  L, p = c.params['L'], c.params['p']
+  sym = c.params.get('sym')
+  alpha = (-2, -1, lo, lo + 1, lo + 4, hi - 1)
+  events = []
+  for i in range(L):
+    if sym is not None and i not in sym:
+      events.append(PATTERN[(i * 7 + 3) % len(PATTERN)])
+    else:
+      e = c.int('e%d' % i, -2, hi - 1)
+      c.assume(c.Or([c.eq(e, a) for a in alpha]))
+      events.append(c.concretize(e))
+  kw = {}
+  spec = c.params.get('dists', 'default')
+  if spec == 'default':
+    dists = [16, 32]
+  else:
+    dists = list(spec)
+    kw['lookback_distances'] = list(dists)
+  bits = c.params.get('bits')
+  if bits is None:
+    bits = 7
+  else:
+    kw['binary_counter_bits'] = bits
+  enc = med.KeyMelodyEncoderDecoder(lo, hi, **kw)
+  r, nl = hi - lo, len(dists)
+  c.check(enc.num_classes == r + 2 + nl, 'num_classes')
+  c.check(enc.input_size == r + 2 + 1 + 1 + nl + bits + 1 + 12 + 12,
+          'input_size as documented')
+  c.check(enc.default_event_label == r, 'default label = no-event')
+  if c.params.get('as_melody'):
+    evl = ml.Melody(list(events), start_step=c.params.get('start_step', 0))
+    # (the Melody constructor turns note-offs before the first note into
+    # no-events; the sequence under test is what the Melody holds)
+    events = list(evl)
+  else:
+    evl = list(events)
+
+  def vec_ok(vec, pos, what):
+    vec = list(vec)
+    want = _keymelody_vec(events, pos, lo, hi, dists, bits)
+    c.check(len(vec) == len(want), what + 'input vector has input_size entries')
+    names = ([(0, r + 2, 'pitch / playing / silence block')] +
+             [(r + 2, r + 3, 'attack flag'),
+              (r + 3, r + 4, 'ascending / descending flag'),
+              (r + 4, r + 4 + nl, 'repeat flags'),
+              (r + 4 + nl, r + 4 + nl + bits,
+               'binary counters are the bits of position+1 as +-1'),
+              (r + 4 + nl + bits, r + 5 + nl + bits, 'start-of-bar flag'),
+              (r + 5 + nl + bits, r + 17 + nl + bits, 'keys of the melody'),
+              (r + 17 + nl + bits, r + 29 + nl + bits,
+               'keys of the last three notes')])
+    for a, b, name in names:
+      c.check(all(w is None or x == w for x, w in zip(vec[a:b], want[a:b])),
+              what + name)
+
+  def label_want(pos):
+    if dists and pos < dists[-1] and events[pos] == -2:
+      return r + 2 + nl - 1
+    for i in range(nl - 1, -1, -1):
+      if pos - dists[i] >= 0 and events[pos] == events[pos - dists[i]]:
+        return r + 2 + i
+    e = events[pos]
+    return r + 1 if e == -1 else (r if e == -2 else e - lo)
+
+  vec_ok(enc.events_to_input(evl, p), p, '')
+  label = enc.events_to_label(evl, p)
+  c.check(label == label_want(p), 'label follows the documented precedence')
+  c.check(enc.class_index_to_event(label, evl[:p]) == events[p],
+          'decode(label(p), events[:p]) == events[p]')
+  if c.params.get('encode'):
+    ins, labs = enc.encode(evl)
+    c.check(len(ins) == L - 1 and len(labs) == L - 1,
+            'encode returns len-1 aligned pairs')
+    for i in range(L - 1):
+      vec_ok(ins[i], i, 'encode: ')
+      c.check(labs[i] == label_want(i + 1),
+              'encode: label i is the label of position i+1')
+  c.check(list(evl) == list(events) and len(evl) == L,
+          'the events are left unmodified')
 
 
 def h_conditional(c):
@@ -387,14 +796,258 @@ def h_conditional(c):
           'default label of the wrapper = the target\'s')
 
 
+# chord symbol -> (root, pitch classes, bass), written by hand
+_CHORDS = {'C': (0, (0, 4, 7), 0), 'Am': (9, (9, 0, 4), 9),
+           'G7': (7, (7, 11, 2, 5), 7), 'D/F#': (2, (2, 6, 9), 6),
+           'Bdim': (11, (11, 2, 5), 11)}
+# triad class as documented: 0 no chord, 1.. major, 13.. minor, 25.. augmented,
+# 37.. diminished, each by root pitch class
+_TRIADS = {'N.C.': 0, 'C': 1, 'Am': 22, 'Caug': 25, 'Bdim': 48, 'F#m': 19}
+
+
+def _pitch_chords_vec(ch):
+  v = [0.0] * 37
+  if ch == 'N.C.':
+    v[0] = 1.0
+    return v
+  root, pitches, bass = _CHORDS[ch]
+  v[1 + root] = 1.0
+  for q in pitches:
+    v[13 + q] = 1.0
+  v[25 + bass] = 1.0
+  return v
+
+
+def h_conditional_ctl(c):
+  """The conditional wrapper over three-event pairs (so that "control one
+  position ahead" differs from "the last control event") with every kind of
+  control encoder: multiple / optional / chord / density / histogram /
+  lookback encoders.  events_to_input, events_to_label, encode,
+  get_inputs_batch (last event and full length, and its length checks) and
+  extend_event_sequences of the wrapper."""
+  ed = c.mod('encoder_decoder')
+  med = c.mod('melody_encoder_decoder')
+  ml = c.mod('melodies_lib')
+  kind = c.params['ctl']
+  L = c.params.get('L', 3)
+  oh = med.MelodyOneHotEncoding(LO, HI)
+  n1 = HI - LO + 2
+
+  def onehot(k, n):
+    v = [0.0] * n
+    v[c.concretize(k)] = 1.0
+    return v
+
+  def seq(prefix, sym):
+    # melody events: symbolic over {no-event, note-off, LO} at `sym`, fixed
+    # (pairwise different neighbours) elsewhere
+    out = []
+    for i in range(L):
+      if i in sym:
+        e = c.int('%s%d' % (prefix, i), -2, LO)
+        c.assume(c.Or(c.eq(e, -2), c.eq(e, -1), c.eq(e, LO)))
+        out.append(e)
+      else:
+        out.append((LO, 60, -1, 62)[i % 4])
+    return out
+
+  tgt = seq('t', c.params.get('tsym', [1]))
+  if c.params.get('target') == 'lookback':
+    tenc = ed.LookbackEventSequenceEncoderDecoder(oh, [2], 1)
+
+    def tvec(i):
+      back = tgt[i - 1] if i >= 1 else -2
+      rep = i >= 2 and bool(c.eq(tgt[i], tgt[i - 2]))
+      return (onehot(_cls(c, tgt[i]), n1) + onehot(_cls(c, back), n1) +
+              [1.0 if (i + 1) % 2 else -1.0, 1.0 if rep else 0.0])
+
+    def tlabel(i):
+      return _expected_lookback_label(c, tgt, i, [2], n1, -2,
+                                      lambda e: _cls(c, e))
+  else:
+    tenc = ed.OneHotEventSequenceEncoderDecoder(oh)
+
+    def tvec(i):
+      return onehot(_cls(c, tgt[i]), n1)
+
+    def tlabel(i):
+      return _cls(c, tgt[i])
+
+  mel = seq('m', c.params.get('msym', [1, 2]))
+  if kind == 'multi':
+    cho = [c.choice('ch%d' % i, ['N.C.', 'C', 'Am', 'G7', 'D/F#', 'Bdim'])
+           if i == 1 else ('Am', None, 'D/F#', 'N.C.')[i % 4] for i in range(L)]
+    cenc = ed.MultipleEventSequenceEncoder(
+        [ed.OneHotEventSequenceEncoderDecoder(oh),
+         c.mod('chords_encoder_decoder').PitchChordsEncoderDecoder()])
+    ctrl = [(mel[i], cho[i]) for i in range(L)]
+    csize = n1 + 37
+    cvec = lambda i: onehot(_cls(c, mel[i]), n1) + _pitch_chords_vec(cho[i])
+  elif kind == 'single':
+    cenc = ed.MultipleEventSequenceEncoder(
+        [ed.OneHotIndexEventSequenceEncoderDecoder(oh),
+         ed.OneHotEventSequenceEncoderDecoder(oh)], encode_single_sequence=True)
+    ctrl = list(mel)
+    csize = 1 + n1
+    cvec = lambda i: [_cls(c, mel[i])] + onehot(_cls(c, mel[i]), n1)
+  elif kind == 'optional':
+    dis = [c.bool('dis%d' % i) for i in range(L)]
+    cenc = ed.OptionalEventSequenceEncoder(
+        ed.OneHotEventSequenceEncoderDecoder(oh))
+    ctrl = [(dis[i], mel[i]) for i in range(L)]
+    csize = 1 + n1
+    cvec = lambda i: ([1.0] + [0.0] * n1 if bool(dis[i]) else
+                      [0.0] + onehot(_cls(c, mel[i]), n1))
+  elif kind == 'triad':
+    cho = [c.choice('ch%d' % i, sorted(_TRIADS)) if i == 1 else
+           ('F#m', None, 'Caug', 'N.C.')[i % 4] for i in range(L)]
+    cenc = ed.OneHotEventSequenceEncoderDecoder(
+        c.mod('chords_encoder_decoder').TriadChordOneHotEncoding())
+    ctrl = list(cho)
+    csize = 49
+    cvec = lambda i: onehot(_TRIADS[cho[i]], 49)
+    for ch in set(cho):
+      lab = cenc.events_to_label([ch], 0)
+      c.check(lab == _TRIADS[ch] and cenc.class_index_to_event(lab, []) == ch,
+              'triad class as documented, and it decodes to the chord')
+    c.check(cenc.num_classes == 49 and cenc.default_event_label == 0,
+            'triad encoder: 49 classes, default = no chord')
+  elif kind == 'density':
+    sig = c.mod('performance_controls').NoteDensityPerformanceControlSignal(
+        window_size_seconds=3.0, density_bin_ranges=[1.0, 5.0])
+    cenc = sig.encoder
+    ctrl = [c.real('x%d' % i, 0, 20) for i in range(L)]
+    csize = 3
+    bin_of = lambda x: c.If(x < 1, 0, c.If(x < 5, 1, 2))
+    cvec = lambda i: onehot(bin_of(ctrl[i]), 3)
+    c.check(cenc.num_classes == 3 and cenc.default_event_label == 0,
+            'density encoder: one class more than boundaries, default = bin 0')
+    lab = cenc.events_to_label(ctrl, 1)
+    c.check(c.eq(lab, bin_of(ctrl[1])), 'density label = index of the bin')
+    floor = cenc.class_index_to_event(lab, ctrl[:1])
+    c.check(c.And(floor <= ctrl[1],
+                  c.eq(floor, c.If(ctrl[1] < 1, 0, c.If(ctrl[1] < 5, 1, 5)))),
+            'a density label decodes to the lower bound of its bin')
+  elif kind == 'histogram':
+    sig = c.mod('performance_controls').PitchHistogramPerformanceControlSignal(
+        window_size_seconds=5.0)
+    cenc = sig.encoder
+    ctrl = [[c.int('w%d_%d' % (i, k), 0, 3) if k in (0, 7) else (1 if i == 1
+                                                                else 0)
+             for k in range(12)] for i in range(L)]
+    csize = 12
+
+    def cvec(i):
+      tot = ctrl[i][0] + ctrl[i][7] + (10 if i == 1 else 0)
+      if bool(c.eq(tot, 0)):
+        return [1.0 / 12] * 12
+      return [w / (tot * 1.0) for w in ctrl[i]]
+  else:
+    cenc = ed.LookbackEventSequenceEncoderDecoder(oh, [1], 1)
+    ctrl = list(mel)
+    csize = 2 * n1 + 2
+
+    def cvec(i):
+      rep = i >= 1 and bool(c.eq(mel[i], mel[i - 1]))
+      return (onehot(_cls(c, mel[i]), n1) + onehot(_cls(c, mel[i]), n1) +
+              [1.0 if (i + 1) % 2 else -1.0, 1.0 if rep else 0.0])
+
+  enc = ed.ConditionalEventSequenceEncoderDecoder(cenc, tenc)
+  c.check(cenc.input_size == csize, 'control input_size')
+  c.check(enc.input_size == csize + tenc.input_size, 'input_size')
+  c.check(enc.num_classes == tenc.num_classes, 'num_classes')
+
+  def same(got, want):
+    got = list(got)
+    if len(got) != len(want):
+      return False
+    return bool(c.And([c.approx(a, b, 1e-9) if kind == 'histogram'
+                       else c.eq(a, b) for a, b in zip(got, want)]))
+
+  cl, tl = list(ctrl), list(tgt)
+  for pos in range(L - 1):
+    vec = enc.events_to_input(cl, tl, pos)
+    c.check(len(vec) == enc.input_size, 'input vector has input_size entries')
+    c.check(same(vec[:csize], cvec(pos + 1)),
+            'control part encodes the control event one position ahead')
+    c.check(same(vec[csize:], tvec(pos)),
+            'target part encodes the target event at the position')
+  for pos in range(L):
+    lab = enc.events_to_label(tl, pos)
+    c.check(c.eq(lab, tlabel(pos)), 'label is the target label of the position')
+    c.check(c.eq(enc.class_index_to_event(lab, tl[:pos]), tgt[pos]),
+            'decode(label(p), target[:p]) == target[p]')
+  ins, labs = enc.encode(cl, tl)
+  c.check(len(ins) == L - 1 and len(labs) == L - 1,
+          'encode returns len-1 aligned pairs')
+  for i in range(L - 1):
+    c.check(same(ins[i], cvec(i + 1) + tvec(i)),
+            'encode: control one ahead + target at the position')
+    c.check(c.eq(labs[i], tlabel(i + 1)),
+            'encode: label i is the target label of position i+1')
+  # generation: the target is one event shorter than the control
+  last = enc.get_inputs_batch([cl, cl], [tl[:L - 1], tl[:1]])
+  c.check(len(last) == 2 and len(last[0]) == 1 and len(last[1]) == 1 and
+          same(last[0][0], cvec(L - 1) + tvec(L - 2)) and
+          same(last[1][0], cvec(1) + tvec(0)),
+          'last-event batch: control after the last target event + last '
+          'target event')
+  full = enc.get_inputs_batch([cl], [tl[:L - 1]], full_length=True)
+  c.check(len(full) == 1 and len(full[0]) == L - 1 and
+          all(same(full[0][i], cvec(i + 1) + tvec(i)) for i in range(L - 1)),
+          'full-length batch: one input per target event')
+  res, err = c.raises(enc.get_inputs_batch, [cl], [tl])
+  c.check(isinstance(err, ValueError),
+          'a control sequence that is not longer than the target is rejected')
+  # NOT CLAIMED (mismatched batch sizes are not in the statement): a different NUMBER of control and target
+  # sequences is documented to raise ValueError, the library raises TypeError
+  # (`len(a, b)`): get_inputs_batch([ctrl, ctrl], [target]).
+  c.check(cl == list(ctrl) and bool(c.And([c.eq(a, b)
+                                           for a, b in zip(tl, tgt)])),
+          'the event lists are left unmodified')
+  if c.params.get('extend'):
+    n = tenc.num_classes
+    seqs = [ml.Melody(list(tgt[:k])) for k in (2, 1)]
+    labels = [c.int('lab%d' % b, 0, n - 1) for b in range(2)]
+    softmax = [[[c.If(c.eq(lab, k), 1.0, 0.0) for k in range(n)]]
+               for lab in labels]
+    want = [tenc.class_index_to_event(labels[b], list(seqs[b]))
+            for b in range(2)]
+    chosen = enc.extend_event_sequences(seqs, softmax)
+    c.check(len(chosen) == 2 and bool(c.And(c.eq(chosen[0], labels[0]),
+                                            c.eq(chosen[1], labels[1]))),
+            'extend: one chosen class per target sequence')
+    c.check(len(seqs[0]) == 3 and len(seqs[1]) == 2 and bool(c.And(
+        c.eq(seqs[0][-1], want[0]), c.eq(seqs[1][-1], want[1]))),
+            'extend: each target grows by the event its class denotes')
+
+
 def h_noteperf(c):
   ped = c.mod('performance_encoder_decoder')
   pl = c.mod('performance_lib')
   PE = pl.PerformanceEvent
   ms, md, nv = c.params['ms'], c.params['md'], c.params['nv']
   lo, hi = c.params['pitch']
-  enc = ped.NotePerformanceEventSequenceEncoderDecoder(nv, ms, md, lo, hi)
+  if c.params.get('defaults'):
+    # every optional argument omitted: 1000 shift steps, 1000 duration steps,
+    # the whole MIDI pitch range
+    enc = ped.NotePerformanceEventSequenceEncoderDecoder(nv)
+  else:
+    enc = ped.NotePerformanceEventSequenceEncoderDecoder(nv, ms, md, lo, hi)
   ncls = enc.num_classes
+  c.check(len(ncls) == 6 and ncls[0] * ncls[1] == ms + 1 and
+          ncls[2] == hi - lo + 1 and ncls[3] == nv and ncls[4] * ncls[5] == md,
+          'sub-label ranges cover 0..max shift, the pitch range, the velocity '
+          'bins and 1..max duration exactly')
+  c.check(enc.input_size == sum(ncls), 'input_size = sum of the sub-ranges')
+  dl = enc.default_event_label
+  c.check(len(dl) == 6 and all(0 <= dl[k] < ncls[k] for k in range(6)),
+          'default label lies in the label range')
+  d_ev = enc.class_index_to_event(dl, None)
+  c.check([e.event_type for e in d_ev] == [PE.TIME_SHIFT, PE.NOTE_ON,
+                                           PE.VELOCITY, PE.DURATION] and
+          lo <= d_ev[1].event_value <= hi and 1 <= d_ev[2].event_value <= nv,
+          'default label decodes to a note tuple within the limits')
   sh = c.int('shift', 0, ms)
   pi = c.int('pitch', lo, hi)
   ve = c.int('vel', 1, nv)
@@ -436,6 +1089,42 @@ def h_noteperf(c):
       off += ncls[k]
 
 
+def _modulo_label(c, et, v, nv, ms):
+  """Classes of the performance one-hot encoding over the full pitch range:
+  128 note-ons, 128 note-offs, ms time shifts (1..ms), nv velocities."""
+  return {1: v, 2: 128 + v, 3: 256 + v - 1, 4: 256 + ms + v - 1}[et]
+
+
+def _check_modulo_vec(c, vec, et, v, nv, ms, what=''):
+  """Modulo input vector: per event type a block (valid bit, cos, sin[, cos,
+  sin]); a pitch sits on a circle of 144 notes and on the circle of its 12
+  pitch classes, a time shift / velocity bin on a circle of ms / nv
+  positions starting at the smallest value."""
+  vec = list(vec)
+  widths = [5, 5, 3] + ([3] if nv > 0 else [])
+  c.check(len(vec) == sum(widths), what + 'input vector has input_size entries')
+  v = c.concretize(v)
+  if et in (1, 2):
+    ang = [2 * math.pi * v / 144.0, 2 * math.pi * (v % 12) / 12.0]
+  elif et == 3:
+    ang = [2 * math.pi * (v - 1) / float(ms)]
+  else:
+    ang = [2 * math.pi * (v - 1) / float(nv)]
+  own = [1.0]
+  for a in ang:
+    own += [math.cos(a), math.sin(a)]
+  off = 0
+  for t, w in zip((1, 2, 3, 4), widths):
+    blk = vec[off:off + w]
+    if t == et:
+      c.check(all(abs(x - y) < 1e-9 for x, y in zip(blk, own)),
+              what + 'own block = valid bit and (cos, sin) of the value\'s '
+              'angle on its circle(s)')
+    else:
+      c.check(all(x == 0.0 for x in blk), what + 'other blocks are zero')
+    off += w
+
+
 def h_modulo(c):
   ped = c.mod('performance_encoder_decoder')
   pl = c.mod('performance_lib')
@@ -459,6 +1148,11 @@ def h_modulo(c):
           'decode(label) == event')
   vec = enc.events_to_input([ev], 0)
   c.check(len(vec) == enc.input_size, 'input vector has input_size entries')
+  _check_modulo_vec(c, vec, et, v, nv, ms)
+  c.check(c.eq(label, _modulo_label(c, et, v, nv, ms)),
+          'label = offset of the event type + value')
+  c.check(enc.default_event_label == 256 + ms - 1,
+          'default label = the longest time shift')
   widths = [5, 5, 3] + ([3] if nv > 0 else [])
   c.check(enc.input_size == sum(widths), 'input_size')
   off = 0
@@ -489,6 +1183,268 @@ def h_modulo(c):
           'steps of the generated sequence = labels_to_num_steps')
 
 
+def _pe_eq(c, a, b):
+  return c.And(a.event_type == b.event_type,
+               c.eq(a.event_value, b.event_value))
+
+
+def h_positions(c):
+  """Two-event sequences for the encoders the other harnesses drive with a
+  one-element list: label / input of position 0 and of position 1 belong to
+  THAT event, and the inherited encode pairs the input of event 0 with the
+  label of event 1.  Also the constructors with their arguments omitted."""
+  which = c.params['enc']
+  ped = c.mod('performance_encoder_decoder')
+  PE = c.mod('performance_lib').PerformanceEvent
+  if which == 'modulo':
+    if c.params.get('ctor') == 'default':
+      nv, ms = 0, 100
+      enc = ped.ModuloPerformanceEventSequenceEncoderDecoder()
+    else:
+      nv, ms = c.params['nv'], c.params['ms']
+      enc = ped.ModuloPerformanceEventSequenceEncoderDecoder(
+          num_velocity_bins=nv, max_shift_steps=ms)
+    c.check(enc.num_classes == 256 + ms + nv, 'num_classes')
+    c.check(enc.input_size == 13 + (3 if nv > 0 else 0), 'input_size')
+    evs, raw = [], []
+    for i, et in enumerate(c.params['types']):
+      if et == PE.TIME_SHIFT:
+        v = c.int('v%d' % i, max(1, ms - 3), ms)
+      elif et == PE.VELOCITY:
+        v = c.int('v%d' % i, 1, nv)
+      else:
+        v = c.int('v%d' % i, 58, 61)
+      evs.append(PE(et, v))
+      raw.append((et, v))
+    evl = list(evs)
+    for pos in (1, 0):
+      et, v = raw[pos]
+      lab = enc.events_to_label(evl, pos)
+      c.check(c.eq(lab, _modulo_label(c, et, v, nv, ms)),
+              'label of position p = offset of the type + value of events[p]')
+      c.check(_pe_eq(c, enc.class_index_to_event(lab, evl[:pos]), evs[pos]),
+              'decode(label(p), events[:p]) == events[p]')
+      _check_modulo_vec(c, enc.events_to_input(evl, pos), et, v, nv, ms,
+                        'position %d: ' % pos)
+    ins, labs = enc.encode(evl)
+    c.check(len(ins) == 1 and len(labs) == 1,
+            'encode returns len-1 aligned pairs')
+    _check_modulo_vec(c, ins[0], raw[0][0], raw[0][1], nv, ms, 'encode: ')
+    c.check(c.eq(labs[0], _modulo_label(c, raw[1][0], raw[1][1], nv, ms)),
+            'encode: label 0 is the label of event 1')
+    c.check(len(evl) == 2 and evl[0] is evs[0] and evl[1] is evs[1],
+            'the event list is left unmodified')
+  elif which == 'noteperf':
+    ms, md, nv = c.params['ms'], c.params['md'], c.params['nv']
+    lo, hi = c.params['pitch']
+    pos = c.params['pos']
+    enc = ped.NotePerformanceEventSequenceEncoderDecoder(
+        nv, max_shift_steps=ms, max_duration_steps=md, min_pitch=lo,
+        max_pitch=hi)
+    ncls = enc.num_classes
+    evs = []
+    for i in range(2):
+      evs.append((PE(PE.TIME_SHIFT, c.int('s%d' % i, 0, ms)),
+                  PE(PE.NOTE_ON, c.int('p%d' % i, lo, hi)),
+                  PE(PE.VELOCITY, c.int('v%d' % i, 1, nv)),
+                  PE(PE.DURATION, c.int('d%d' % i, 1, md))))
+    evl = list(evs)
+    labels = [enc.events_to_label(evl, i) for i in range(2)]
+    for i in range(2):
+      c.check(len(labels[i]) == 6 and bool(c.And(
+          [c.And(labels[i][k] >= 0, labels[i][k] < ncls[k]) for k in range(6)])),
+              'six sub-labels in range')
+      back = enc.class_index_to_event(labels[i], evl[:i])
+      c.check(c.And([_pe_eq(c, a, b) for a, b in zip(back, evs[i])]),
+              'decode(label(p), events[:p]) == events[p]')
+    c.cover('the two events differ',
+            c.Not(c.eq(evs[0][1].event_value, evs[1][1].event_value)))
+
+    def blocks_ok(vec, lab, what):
+      vec = list(vec.data) if hasattr(vec, 'data') else list(vec)
+      c.check(len(vec) == enc.input_size and enc.input_size == sum(ncls),
+              what + 'input vector has input_size entries')
+      off = 0
+      for k in range(6):
+        c.check(_one_hot_block_ok(c, vec, off, ncls[k]) and
+                vec[off + c.concretize(lab[k])] == 1.0,
+                what + 'one-hot block k marks sub-label k of events[p]')
+        off += ncls[k]
+
+    blocks_ok(enc.events_to_input(evl, pos), labels[pos], 'position p: ')
+    if pos == 0:
+      ins, labs = enc.encode(evl)
+      c.check(len(ins) == 1 and len(labs) == 1,
+              'encode returns len-1 aligned pairs')
+      blocks_ok(ins[0], labels[0], 'encode: ')
+      c.check(c.And([c.eq(a, b) for a, b in zip(labs[0], labels[1])]),
+              'encode: label 0 is the label of event 1')
+    steps = enc.labels_to_num_steps(labels)
+    c.check(c.eq(steps, evs[0][0].event_value + evs[1][0].event_value +
+                 evs[1][3].event_value),
+            'labels_to_num_steps = shifts + final duration')
+  else:
+    pr = c.mod('pianoroll_encoder_decoder')
+    W = c.params['W']
+    enc = pr.PianorollEncoderDecoder(input_size=W)
+    evs = [tuple(i for i in range(W) if bool(c.bool('b%d_%d' % (k, i))))
+           for k in range(2)]
+    evl = list(evs)
+    for pos in (1, 0):
+      lab = enc.events_to_label(evl, pos)
+      c.check(lab == sum(2**i for i in evs[pos]),
+              'label of position p = sum of 2**pitch over events[p]')
+      c.check(enc.class_index_to_event(lab, evl[:pos]) == evs[pos],
+              'decode(label(p), events[:p]) == events[p]')
+      vec = enc.events_to_input(evl, pos)
+      vec = list(vec.data) if hasattr(vec, 'data') else list(vec)
+      c.check(len(vec) == W and all((vec[i] == 1) == (i in evs[pos])
+                                    for i in range(W)),
+              'input of position p marks exactly the pitches of events[p]')
+    ins, labs = enc.encode(evl)
+    c.check(len(ins) == 1 and len(labs) == 1,
+            'encode returns len-1 aligned pairs')
+    v0 = list(ins[0].data) if hasattr(ins[0], 'data') else list(ins[0])
+    c.check(all((v0[i] == 1) == (i in evs[0]) for i in range(W)) and
+            labs[0] == sum(2**i for i in evs[1]),
+            'encode: input of event 0, label of event 1')
+    c.check(enc.default_event_label == 0 and
+            enc.class_index_to_event(enc.default_event_label, []) == (),
+            'default label = the empty pianoroll event')
+    c.check(enc.labels_to_num_steps([0, 1, 2]) == 3, 'one step per label')
+    # the generation helper of this encoder takes binary samples
+    seqs = [list(evl), [evs[1]]]
+    samples = [c.np.array([1.0 if i in evs[k] else 0.0 for i in range(W)])
+               for k in (1, 0)]
+    enc.extend_event_sequences(seqs, samples)
+    c.check(len(seqs[0]) == 3 and len(seqs[1]) == 2 and
+            tuple(seqs[0][-1]) == evs[1] and tuple(seqs[1][-1]) == evs[0] and
+            seqs[0][:2] == evl,
+            'extend appends to each sequence the active pitches of its sample')
+    res, err = c.raises(enc.extend_event_sequences, seqs, samples[:1])
+    c.check(isinstance(err, ValueError), 'unequal lengths rejected')
+
+
+def h_lookback_perf(c):
+  """A lookback (or plain one-hot) encoder over a VARIABLE-STEP one-hot
+  encoding: performance events with a restricted pitch range.  The generation
+  loop is modelled independently (label -> plain class of the documented
+  layout note-ons | note-offs | time shifts | velocities, or the event d_i
+  back / the default event = longest time shift); labels_to_num_steps must be
+  the sum of the time shifts of the sequence so generated."""
+  ed = c.mod('encoder_decoder')
+  ped = c.mod('performance_encoder_decoder')
+  PE = c.mod('performance_lib').PerformanceEvent
+  nv, ms = c.params['nv'], c.params['ms']
+  lo, hi = c.params['pitch']
+  R = hi - lo + 1
+  n1 = 2 * R + ms + nv
+  poh = ped.PerformanceOneHotEncoding(num_velocity_bins=nv, max_shift_steps=ms,
+                                      min_pitch=lo, max_pitch=hi)
+  c.check(poh.num_classes == n1, 'one-hot classes of the restricted range')
+  spec = c.params['dists']
+  if spec == 'onehot':
+    dists = []
+    enc = ed.OneHotEventSequenceEncoderDecoder(poh)
+  else:
+    dists = _lookbacks(c, spec) if isinstance(spec, int) else list(spec)
+    enc = ed.LookbackEventSequenceEncoderDecoder(
+        poh, lookback_distances=list(dists), binary_counter_bits=2)
+  n = enc.num_classes
+  c.check(n == n1 + len(dists), 'num_classes')
+  c.check(enc.default_event_label == 2 * R + ms - 1,
+          'default label = class of the longest time shift')
+  N = c.params['N']
+  labels = [c.int('l%d' % i, 0, n - 1) for i in range(N)]
+
+  def plain(l):
+    # (type, value) of a plain class
+    ty = c.If(l < R, 1, c.If(l < 2 * R, 2, c.If(l < 2 * R + ms, 3, 4)))
+    va = c.If(l < R, lo + l, c.If(l < 2 * R, lo + l - R,
+                                  c.If(l < 2 * R + ms, l - 2 * R + 1,
+                                       l - 2 * R - ms + 1)))
+    return ty, va
+
+  gen = []
+  for t, l in enumerate(labels):
+    ty, va = plain(l)
+    for i, d in enumerate(dists):
+      bty, bva = 3, ms
+      for k in range(1, t + 1):
+        bty = c.If(c.eq(d, k), gen[t - k][0], bty)
+        bva = c.If(c.eq(d, k), gen[t - k][1], bva)
+      ty = c.If(c.eq(l, n1 + i), bty, ty)
+      va = c.If(c.eq(l, n1 + i), bva, va)
+    gen.append((ty, va))
+  want = c.Sum([c.If(c.eq(ty, 3), va, 0) for ty, va in gen])
+  ll = list(labels)
+  steps = enc.labels_to_num_steps(ll)
+  c.check(c.eq(steps, want),
+          'labels_to_num_steps = time shifts of the generated sequence')
+  c.check(len(ll) == N and bool(c.And([c.eq(a, b)
+                                       for a, b in zip(ll, labels)])),
+          'the label list is left unmodified')
+  # the generation loop itself, and the labels of what it generated
+  seq = []
+  for t, l in enumerate(labels):
+    ev = enc.class_index_to_event(l, seq)
+    c.check(c.And(c.eq(ev.event_type, gen[t][0]),
+                  c.eq(ev.event_value, gen[t][1])),
+            'the label decodes to its plain class, or to the event d_i steps '
+            'back (default event before the start)')
+    seq.append(ev)
+  for t in range(N):
+    lab = enc.events_to_label(seq, t)
+    c.check(c.And(lab >= 0, lab < n), 'label in [0, num_classes)')
+    c.check(_pe_eq(c, enc.class_index_to_event(lab, seq[:t]), seq[t]),
+            'decode(label(p), events[:p]) == events[p]')
+  if dists:
+    c.cover('a lookback label after a time shift',
+            c.And(c.eq(gen[0][0], 3), labels[1] >= n1))
+
+
+def h_degenerate(c):
+  """One-event sequences and empty label lists: encode has no pair to return
+  and a sequence generated from no labels has no steps."""
+  ed = c.mod('encoder_decoder')
+  med = c.mod('melody_encoder_decoder')
+  ped = c.mod('performance_encoder_decoder')
+  PE = c.mod('performance_lib').PerformanceEvent
+  oh = med.MelodyOneHotEncoding(LO, HI)
+  e = _valid_event(c, 'e0')
+  which = c.params['enc']
+  if which == 'noteperf':
+    enc = ped.NotePerformanceEventSequenceEncoderDecoder(2, 5, 6, 60, 61)
+    ev = (PE(PE.TIME_SHIFT, c.int('s', 0, 5)), PE(PE.NOTE_ON, 60),
+          PE(PE.VELOCITY, 1), PE(PE.DURATION, 1))
+    c.check(enc.encode([ev]) == ([], []), 'encode of one event: no pairs')
+    res, err = c.raises(enc.labels_to_num_steps, [])
+    c.check(err is None and res == 0, 'no labels, no steps')
+    return
+  encs = [ed.OneHotEventSequenceEncoderDecoder(oh),
+          ed.OneHotIndexEventSequenceEncoderDecoder(oh),
+          ed.LookbackEventSequenceEncoderDecoder(oh),
+          ed.LookbackEventSequenceEncoderDecoder(oh, [], 0),
+          med.KeyMelodyEncoderDecoder(LO, HI)]
+  for enc in encs:
+    res, err = c.raises(enc.encode, [e])
+    c.check(err is None and res == ([], []), 'encode of one event: no pairs')
+    res, err = c.raises(enc.labels_to_num_steps, [])
+    c.check(err is None and res == 0, 'no labels, no steps')
+  men = ped.ModuloPerformanceEventSequenceEncoderDecoder(2, 4)
+  c.check(men.encode([PE(PE.TIME_SHIFT, c.int('s', 1, 4))]) == ([], []) and
+          men.labels_to_num_steps([]) == 0,
+          'modulo encoder: no pairs, no steps')
+  pen = c.mod('pianoroll_encoder_decoder').PianorollEncoderDecoder(4)
+  c.check(pen.encode([(1, 2)]) == ([], []) and
+          pen.labels_to_num_steps([]) == 0,
+          'pianoroll encoder: no pairs, no steps')
+  wrap = ed.ConditionalEventSequenceEncoderDecoder(encs[0], encs[2])
+  c.check(wrap.encode([e], [e]) == ([], []) and
+          wrap.labels_to_num_steps([]) == 0,
+          'conditional wrapper: no pairs, no steps')
+
+
 def h_pianoroll(c):
   ped = c.mod('pianoroll_encoder_decoder')
   W = c.params['W']
@@ -516,7 +1472,12 @@ def h_pianoroll_wide(c):
   solver closes the choice), plus the all-keys label."""
   ped = c.mod('pianoroll_encoder_decoder')
   W, Kp = c.params.get('W', 88), c.params['K']
-  enc = ped.PianorollEncoderDecoder(W)
+  if c.params.get('default_ctor'):
+    enc = ped.PianorollEncoderDecoder()
+    c.check(enc.input_size == 88 and enc.num_classes == 2**88,
+            'default pianoroll encoder has 88 keys')
+  else:
+    enc = ped.PianorollEncoderDecoder(W)
   ps = [c.int('p%d' % i, 0, W - 1) for i in range(Kp)]
   for a, b in zip(ps, ps[1:]):
     c.assume(a < b)
@@ -525,6 +1486,10 @@ def h_pianoroll_wide(c):
   c.check(0 <= label < enc.num_classes, 'label in [0, num_classes)')
   res, err = c.raises(enc.class_index_to_event, label, [])
   c.check(err is None and res == ev, 'decode(label) == event')
+  vec = enc.events_to_input([ev], 0)
+  vec = list(vec.data) if hasattr(vec, 'data') else list(vec)
+  c.check(len(vec) == W and all((vec[i] == 1) == (i in ev) for i in range(W)),
+          'input vector marks exactly the active pitches')
   full = 2**W - 1
   res, err = c.raises(enc.class_index_to_event, full, [])
   c.check(err is None and res == tuple(range(W)),
@@ -536,14 +1501,21 @@ HARNESSES = {
     'h_pianoroll_wide': h_pianoroll_wide,
     'h_lookback': h_lookback,
     'h_lookback_input': h_lookback_input,
+    'h_lookback_vec': h_lookback_vec,
     'h_onehot': h_onehot,
     'h_generation_step': h_generation_step,
     'h_extend': h_extend,
+    'h_extend_multi': h_extend_multi,
     'h_keymelody': h_keymelody,
     'h_keymelody_input': h_keymelody_input,
+    'h_keymelody_vec': h_keymelody_vec,
     'h_conditional': h_conditional,
+    'h_conditional_ctl': h_conditional_ctl,
     'h_noteperf': h_noteperf,
     'h_modulo': h_modulo,
+    'h_positions': h_positions,
+    'h_degenerate': h_degenerate,
+    'h_lookback_perf': h_lookback_perf,
     'h_pianoroll': h_pianoroll,
 }
 
@@ -587,6 +1559,68 @@ def jobs(tier):
   add('h_pianoroll', W=4)
   add('h_pianoroll_wide', K=1)
   add('h_pianoroll_wide', K=2, budget=600)
+  # --- audit round: content of the input vectors, constructor defaults,
+  # encode inputs, get_inputs_batch
+  add('h_lookback_vec', L=4, p=3, dists=2, dmax=4, alphabet=3)
+  add('h_lookback_vec', L=4, p=1, dists=1, dmax=3, small_alphabet=True)
+  add('h_lookback_vec', L=3, p=2, dists=[2, 1], bits=0, alphabet=3, encode=True)
+  add('h_lookback_vec', L=34, p=33, sym=[33, 17, 2], alphabet=3)
+  add('h_lookback_vec', L=18, p=16, sym=[16, 0, 1], alphabet=3)
+  add('h_lookback_vec', L=18, p=15, sym=[15, 0], small_alphabet=True)
+  add('h_lookback_vec', L=34, p=32, sym=[32, 0, 1, 16], alphabet=3, dists=[],
+      bits=7)
+  add('h_positions', enc='modulo', nv=3, ms=4, types=[3, 4])
+  add('h_positions', enc='modulo', nv=0, ms=6, types=[2, 1])
+  add('h_positions', enc='modulo', ctor='default', types=[1, 3])
+  add('h_positions', enc='noteperf', ms=3, md=4, nv=1, pitch=[60, 61], pos=0)
+  add('h_positions', enc='noteperf', ms=3, md=4, nv=1, pitch=[60, 61], pos=1)
+  add('h_positions', enc='pianoroll', W=3)
+  add('h_noteperf', ms=1000, md=1000, nv=16, pitch=[0, 127], defaults=True)
+  add('h_keymelody_vec', L=4, p=3, dists=[1, 3], bits=3, sym=[1, 2, 3])
+  add('h_keymelody_vec', L=3, p=2, dists=[2, 1], bits=2, encode=True,
+      as_melody=True, start_step=5)
+  add('h_keymelody_vec', L=34, p=33, sym=[33, 17, 1])
+  add('h_keymelody_vec', L=18, p=15, sym=[15, 14, 0], as_melody=True)
+  add('h_keymelody_vec', L=18, p=16, sym=[16, 0], dists=[16], bits=5)
+  add('h_keymelody_vec', L=3, p=2, dists=[1], bits=1, range=[1, 128],
+      sym=[1, 2])
+  # NOT CLAIMED (content of key-melody input vectors is not in C08's statement): with min_note=0 a sounding pitch 0 is reported as
+  # silence (`if current_note:` in KeyMelodyEncoderDecoder.events_to_input):
+  # KeyMelodyEncoderDecoder(0, 128, [1], 1).events_to_input([60, -1, 0], 2)
+  # has entry 129 (silence) set and neither entry 0 nor entry 128.
+  # add('h_keymelody_vec', L=3, p=2, dists=[1], bits=1, range=[0, 128],
+  #     sym=[1, 2])
+  for ctl in ('multi', 'single', 'optional', 'triad', 'density', 'histogram',
+              'lookback'):
+    add('h_conditional_ctl', ctl=ctl, extend=ctl == 'single',
+        msym=[1] if ctl == 'optional' else [1, 2],
+        tsym=[0, 2] if ctl == 'density' else [1],
+        target='lookback' if ctl in ('optional', 'density') else 'onehot')
+  add('h_extend_multi', T=2)
+  add('h_degenerate', enc='all')
+  # NOT CLAIMED (empty label list, outside the quantifier): NotePerformanceEventSequenceEncoderDecoder(2, 5, 6, 60,
+  # 61).labels_to_num_steps([]) raises UnboundLocalError (`event` is only
+  # bound inside the loop) instead of returning 0.
+  # add('h_degenerate', enc='noteperf')
+  # an empty key-melody lookback list (F-C08-a, fixed: events_to_label raised
+  # IndexError - `self._lookback_distances[-1]` without the emptiness guard
+  # LookbackEventSequenceEncoderDecoder has; the quantifier ranges over all
+  # lookback lists)
+  add('h_keymelody', L=2, p=1, nl=0)
+  add('h_keymelody', L=2, p=0, nl=0)
+  # NOT CLAIMED (the default label is not the label of a position): NotePerformanceEventSequenceEncoderDecoder(2, 5, 6,
+  # min_pitch=61, max_pitch=62).default_event_label == (0, 0, -1, 0, 0, 0):
+  # the hard-coded pitch 60 is below the range, sub-label 2 is negative.
+  # add('h_noteperf', ms=5, md=6, nv=2, pitch=[61, 62])
+  # NOT CLAIMED (configuration rejected at construction; an assert, though the quantifier says "all shift
+  # limits"): NotePerformanceEventSequenceEncoderDecoder(2, max_shift_steps=100)
+  # dies with AssertionError in the constructor because 101 is prime (same for
+  # a prime max_duration_steps); 100 is performance_lib's default shift limit.
+  # add('h_noteperf', ms=100, md=1000, nv=2, pitch=[0, 127])
+  add('h_lookback_perf', nv=2, ms=3, pitch=[60, 62], dists=[1, 2], N=3)
+  add('h_lookback_perf', nv=0, ms=4, pitch=[21, 108], dists=1, dmax=2, N=3)
+  add('h_lookback_perf', nv=2, ms=3, pitch=[60, 61], dists='onehot', N=2)
+  add('h_pianoroll_wide', K=1, default_ctor=True)
   if deep:
     for L in (5, 6):
       for p in range(L):
@@ -610,4 +1644,20 @@ def jobs(tier):
     add('h_noteperf', ms=399, md=400, nv=64, pitch=[0, 127])
     add('h_modulo', nv=32, ms=100, etype=3, budget=900)
     add('h_pianoroll', W=6, budget=900)
+    for p in range(4):
+      add('h_lookback_vec', L=4, p=p, dists=2, dmax=4, small_alphabet=True,
+          encode=p == 3, budget=1800)
+    add('h_lookback_vec', L=5, p=4, dists=[3, 1], bits=4, alphabet=3,
+        encode=True, budget=900)
+    add('h_keymelody_vec', L=4, p=3, dists=[1, 3], bits=3, encode=True,
+        budget=900)
+    add('h_keymelody_vec', L=34, p=32, sym=[32, 31, 16, 0], encode=True,
+        as_melody=True, budget=1800)
+    add('h_lookback_perf', nv=2, ms=3, pitch=[60, 62], dists=2, dmax=3, N=4,
+        budget=1800)
+    for ctl in ('multi', 'optional', 'lookback'):
+      add('h_conditional_ctl', ctl=ctl, L=4, msym=[1, 2, 3], tsym=[1, 2],
+          target='lookback', extend=True, budget=1800)
+    add('h_positions', enc='pianoroll', W=4, budget=900)
+    add('h_extend_multi', T=3, budget=900)
   return J
